@@ -55,7 +55,7 @@ SIMPLE = {
     'select2': Q('SELECT 2'), 'sleep': Q('SELECT pg_sleep(1)'), 'qt1': Q('SELECT * FROM t1'), 'qt2': Q('SELECT * FROM t2'), 'd': msg('d', b'1\n'), 'c': msg('c'), 'f': msg('f', b'stop\0'), 'multi': Q('BEGIN; SELECT 1'), 'sync': S, 'flush': H,
     # replies around the 8 KiB relay threshold (see MockPg.big_rows), alone, in a multi-statement message, after a COPY in the same message
     'bigsel': Q('SELECT bigrows'), 'hugesel': Q('SELECT hugerow'), 'multibig': Q('SELECT 1; SELECT hugerow; SELECT 2'),
-    'copyin_big': Q('COPY t FROM STDIN; SELECT bigrows'), 'copyin_sel': Q('COPY t FROM STDIN; SELECT 7'),
+    'die': Q('SELECT die'), 'copyin_big': Q('COPY t FROM STDIN; SELECT bigrows'), 'copyin_sel': Q('COPY t FROM STDIN; SELECT 7'),
 }
 
 
@@ -340,6 +340,13 @@ def run_case(chk, ob, ip, prog, case, props, extra_judge=None):
                         if flat[bi].role == 1 and bi not in banned:
                             V.append(('C07', 'H/timed-out-replica-not-banned', 'replica %d timed out the client\'s statement (statement_timeout) but is not on the ban list '
                                       'afterwards: the next client can be sent to it again' % bi))
+        if nsrv > 1 and data['outcome'][0] != 'pending':
+            from checks.c07 import banned_ids
+            bl = deref(ip_, getf(prog, env.pool, 'ConnectionPool', 'banlist')).fields[0].items[0]
+            banned = set(banned_ids(prog, bl))
+            for r in data['reqs']:
+                if r.get('died') and flat[r['backend']].role == 1 and r['backend'] not in banned:
+                    V.append(('C07', 'H/broken-replica-not-banned', 'replica %d closed its connection in the middle of a reply but is not on the ban list afterwards' % r['backend']))
         if case.params is not None:
             V += c12_reference(data, complete, dec, case.params)
         if case.cache and not case.plugins and 'C08' in props and not failed_at:
